@@ -199,6 +199,7 @@ func (ctx *context) ResolveAndCompile(pathname string, opts py.CompileOpts) (py.
 // The check and the increment are one critical section, so that Close
 // can never observe running == 0 between the two.
 func (ctx *context) pushBusy() error {
+	ctx.verifYield("pb")
 	ctx.mu.Lock()
 	defer ctx.mu.Unlock()
 	if ctx.closed {
@@ -210,6 +211,7 @@ func (ctx *context) pushBusy() error {
 
 // popBusy must only be called after a successful pushBusy.
 func (ctx *context) popBusy() {
+	ctx.verifYield("pop")
 	ctx.mu.Lock()
 	ctx.running--
 	if ctx.running == 0 {
@@ -220,7 +222,9 @@ func (ctx *context) popBusy() {
 
 // See interface py.Context defined in py/run.go
 func (ctx *context) Close() error {
+	ctx.verifYield("c_once")
 	ctx.closeOnce.Do(func() {
+		ctx.verifYield("c_begin")
 		// Wait for the admitted executions and mark the context closed in one
 		// critical section so nothing can be admitted once the wait is over.
 		ctx.mu.Lock()
@@ -230,11 +234,14 @@ func (ctx *context) Close() error {
 		}
 		ctx.closed = true
 		ctx.mu.Unlock()
+		ctx.verifYield("c_cb")
 
 		// Give each module a chance to release resources
 		ctx.store.OnContextClosed()
+		ctx.verifYield("c_done")
 		close(ctx.done)
 	})
+	ctx.verifYield("c_ret")
 	return nil
 }
 
